@@ -74,3 +74,14 @@ func (h *ServerHandler) VerifAggregatePtr() string {
 	}
 	return fmt.Sprintf("%p", h.aggregate)
 }
+
+// VerifSerialize asks the session's server-side aggregator for an interim result, the way its own interval timer does
+// (Aggregate.Serialize); it gives up when ctx ends.  False if the session has no aggregator (yet).
+func (h *ServerHandler) VerifSerialize(ctx context.Context) bool {
+	a := h.aggregate
+	if a == nil {
+		return false
+	}
+	a.Serialize(ctx)
+	return true
+}
